@@ -1,9 +1,9 @@
 SPECIFICATION Spec
 CONSTANT MaxLen = 2
-CONSTANT RnfrLen = 2
+CONSTANT RnfrLen = 1
 CONSTANT Depth = 2
 CONSTANT Symbols <- SymQuick
-CONSTANT Wd0s <- WdAll
+CONSTANT Wd0s <- WdRoot
 CONSTANT Anons = {FALSE, TRUE}
 CONSTANT Nul <- MCNul
 CONSTANT PP <- MCPP
